@@ -23,7 +23,7 @@ from typing import Any
 SPIN_LIMIT = 200
 
 
-class VirtualDeadlock(RuntimeError):
+class VirtualDeadlock(BaseException):  # (not an Exception: no "except Exception" of a harness or of the code under test may swallow it)
     pass
 
 
@@ -35,6 +35,7 @@ class GatedSelector(selectors.BaseSelector):
         self.gate_until: dict[int, float] = {}  # fd -> virtual time before which its readiness is hidden
         self.on_idle: Callable[[], bool] | None = None  # harness hook: called when nothing is ready; True if it made progress
         self._spin = 0
+        self._barren = 0
         self.spin_limit = SPIN_LIMIT  # drivers whose tasks legitimately yield thousands of times in a row raise it
         self.real_wait: Callable[[], bool] | None = None  # returns True if real time waiting may produce events (in-flight bytes)
 
@@ -78,6 +79,14 @@ class GatedSelector(selectors.BaseSelector):
                 nxt = self._clock.next_timer()
                 if nxt is not None and nxt > self._clock.now:
                     self._clock.now = nxt
+                    self._barren = 0
+                else:
+                    # tasks keep yielding to each other, no timer will ever interrupt them, no I/O arrives: a busy loop in the code
+                    # under test must become a verdict, not a check that never ends
+                    self._barren += 1
+                    if self._barren > 300:
+                        self._barren = 0
+                        raise VirtualDeadlock("the event loop spins: tasks keep yielding, no timer pending, no I/O ready")
             return evs
         self._spin = 0
         # the loop would sleep
@@ -138,15 +147,35 @@ class VLoop(asyncio.SelectorEventLoop):
         self.vselector.gate_until[fd] = when
 
 
-def run(coro_fn: Callable[[], Coroutine[Any, Any, Any]], *, debug: bool = False, spin_limit: int = SPIN_LIMIT) -> Any:
-    """Run `coro_fn()` to completion on a fresh virtual loop. VirtualDeadlock propagates."""
+WALL_LIMIT = 90.0  # seconds of real time one scenario may take
+
+
+def _wall_alarm(signum: int, frame: Any) -> None:
+    raise VirtualDeadlock("wall-clock limit reached: a task step of the code under test does not return (busy loop without a suspension point?)")
+
+
+def run(coro_fn: Callable[[], Coroutine[Any, Any, Any]], *, debug: bool = False, spin_limit: int = SPIN_LIMIT, wall_limit: float = WALL_LIMIT) -> Any:
+    """Run `coro_fn()` to completion on a fresh virtual loop. VirtualDeadlock propagates.  A scenario that takes more than `wall_limit`
+    seconds of real time is interrupted (SIGALRM, main thread only): virtual time protects against waits, not against a step that spins."""
+    import signal
+    import threading
+
     loop = VLoop()
     loop.vselector.spin_limit = spin_limit
+    armed = False
+    old_handler: Any = None
+    if wall_limit and threading.current_thread() is threading.main_thread() and signal.getitimer(signal.ITIMER_REAL)[0] == 0:
+        old_handler = signal.signal(signal.SIGALRM, _wall_alarm)
+        signal.setitimer(signal.ITIMER_REAL, wall_limit)
+        armed = True
     try:
         asyncio.set_event_loop(loop)
         loop.set_debug(debug)
         return loop.run_until_complete(coro_fn())
     finally:
+        if armed:
+            signal.setitimer(signal.ITIMER_REAL, 0)
+            signal.signal(signal.SIGALRM, old_handler)
         try:
             _cancel_all(loop)
             loop.run_until_complete(loop.shutdown_asyncgens())
